@@ -28,6 +28,10 @@ pub fn datum_sval(d: &Datum) -> SVal {
 pub fn run_uses(rs_text: String, uses: Vec<String>) -> (Outcome, Vec<Outcome>) {
     sut::in_thread(move || {
         let mut s = Session::stdlib().unwrap().with_budget(sut::Budget::FUZZ);
+        // history: a definition with a custom ellipsis came first (whether this expander accepts it or not, it must
+        // not change how the rule set under test is read)
+        let _ = s.eval("(define-syntax ce-before (syntax-rules ::: () ((ce-before x :::) (list x :::))))");
+        let _ = s.eval("(define-syntax ce-before2 (syntax-rules ::: () ((ce-before2 (x :::)) (quote (x :::)))))");
         let d = s.eval(&rs_text);
         let outs = uses.iter().map(|u| s.eval(u)).collect();
         (d, outs)
@@ -242,6 +246,8 @@ pub fn small_uses() -> Vec<Datum> {
         // data that are *written* like the literal identifier k, but are not identifiers
         Datum::Str("k".into()),
         Datum::Char('k'),
+        // an inexact number equal in value to the exact datum 5 of the patterns
+        Datum::Real("5.0".into()),
     ];
     let mut out = vec![Datum::List(vec![], None)];
     for len in 1..=3usize {
@@ -507,7 +513,13 @@ fn mutate(ch: &mut Chooser, d: &Datum, literals: &[String]) -> Datum {
             1 if s.chars().count() == 1 => Datum::Char(s.chars().next().unwrap()),
             _ => Datum::Sym("not-the-literal".into()),
         },
-        Datum::Int(i) => Datum::Int(i + 1),
+        Datum::Int(i) => {
+            if ch.chance(1, 2) {
+                Datum::Int(i + 1)
+            } else {
+                Datum::Real(format!("{}.0", i))
+            }
+        }
         _ => atom_datum(ch),
     }
 }
